@@ -107,7 +107,11 @@ Inductive bmp_view : Type :=
 | VPeerDown (p : peer_view) (reason : N) (notification_pdu : option bytes) (fsm_code : option N)
 | VPeerUp (p : peer_view) (local_addr : bytes) (local_port remote_port : N)
           (sent_open received_open : bytes) (info : list (N * bytes))
-| VInitiation (info : list (N * bytes)).
+| VInitiation (info : list (N * bytes))
+(* kinds daemon/src/bmp.rs never sends (RFC 7854 4.8, 4.5, 4.7) *)
+| VStats (p : peer_view) (count : N) (stats : list (N * bytes))
+| VTermination (info : list (N * bytes))
+| VMirroring (p : peer_view) (tlvs : list (N * bytes)).
 
 Definition read_body (ty : N) (body : bytes) : option bmp_view :=
   match ty with
@@ -143,6 +147,20 @@ Definition read_body (ty : N) (body : bytes) : option bmp_view :=
   | 4 =>
     let? info := read_tlvs (length body) body in
     Some (VInitiation info)
+  | 1 =>      (* Statistics Report: per-peer header, Stats Count(4), that many (Type(2) Length(2) Data) *)
+    let? (p, r) := read_peer body in
+    let? (cnt, r) := rd 4 r in
+    let? st := read_tlvs (length r) r in
+    let? _ := guard (N.of_nat (length st) =? cnt) in
+    Some (VStats p cnt st)
+  | 5 =>      (* Termination: one or more TLVs *)
+    let? info := read_tlvs (length body) body in
+    let? _ := guard (match info with [] => false | _ => true end) in
+    Some (VTermination info)
+  | 6 =>      (* Route Mirroring: per-peer header, TLVs *)
+    let? (p, r) := read_peer body in
+    let? tl := read_tlvs (length r) r in
+    Some (VMirroring p tl)
   | _ => None
   end.
 
@@ -245,12 +263,11 @@ Definition common_length_exact (msg : bytes) : Prop :=
   exists ver len ty following,
     msg = [ver] ++ be 4 len ++ [ty] ++ following /\ len < 2 ^ 32 /\ len = N.of_nat (length msg).
 
-(* Open finding C19-3 (known_findings.json): the class of monitored announcements
-   whose embedded UPDATE loses its next hop, an IPv4-unicast route with an IPv6
-   next hop (RFC 8950).  The BGP encoder is outside this development (C04), so no
-   theorem here speaks about the content of a PDU and none is restricted by this
-   predicate; it mirrors the decidable class [known3] used by the oracle of
-   gen/c19.py, which attributes a failure to the finding only inside this class. *)
+(* Finding C19-3 (known_findings.json, fixed): the class of monitored announcements
+   whose embedded UPDATE used to lose its next hop, an IPv4-unicast route with an
+   IPv6 next hop (RFC 8950).  BmpCodec / MrtCodec now select the MP_REACH_NLRI form
+   for exactly this class (Model/MonConv.v [needs_rfc8950]); the predicate mirrors
+   the class [known3] of the oracle of gen/c19.py. *)
 Definition Known_C19_3 (family : N) (nexthop : option bytes) : Prop :=
   family = 65537 /\ exists nh, nexthop = Some nh /\ (length nh = 16%nat \/ length nh = 32%nat).
 
